@@ -12,7 +12,7 @@ TECHNIQUE = 'runtime monitoring: independent structural walker attached as a pos
 RULE = ('the value spaces of C06, C07 and C14 plus construct-only families (SR-TE policy NLRI, tunnel-encapsulation attribute in both '
         'codings with preference / binding SID / ENLP / priority / policy name 0..255 chars / remote endpoint v4,v6 / 0..4 segment lists with '
         'weight and every segment sub-TLV kind with and without optional SID, PMSI tunnel, IPv6 flowspec with prefix offsets, flowspec '
-        'rules beyond 240 octets); every message yabgp constructs is walked by a syntactic checker that shares no code with yabgp: length '
+        'rules beyond 240 octets, attribute values across the 255-octet boundary and requests towards / beyond 4096 octets, every next-hop form per family, non-ASCII policy names, VPN label stacks); every message yabgp constructs is walked by a syntactic checker that shares no code with yabgp: length '
         'fields = bytes that follow, containers sum exactly, flag octets vs RFC category, prefixes ceil(len/8); a construct that '
         'returns nothing for a non-empty request without raising is a violation; distinct = distinct messages walked')
 ASSUMPTIONS = ['vlib/walker.py written from the RFCs (4271, 4760, 5492, 8277, 4364, 7432, 8955/8956, 9012, 9256 drafts, 6514, 7752)',
